@@ -18,7 +18,7 @@ META = dict(
     id='C17',
     level='proof',
     technique='Coq proof (std::stable_sort by specification: unique stable sorted permutation; comparator is a strict weak order; head/tail window; group sums by fold invariants) + differential correspondence of the extracted handler-chain model against ledger',
-    level_text='Theorems in coq/Properties/Properties_C17.v: any two results meeting the specification of a stable sort are equal and the model\'s insertion sort meets it (so the model predicts std::stable_sort without trusting its algorithm); the model of sort_value_is_less_than is a strict weak order on dates, strings, amounts and compound keys with inverted components whenever no amount lacks a commodity or at most one commodity occurs (and is refuted by a cyclic witness otherwise); --sort yields a permutation with unchanged amounts; the model of truncate_xacts keeps exactly the first / last N transactions of the stream for every integer N (0, beyond the count, negative as coded); the models of subtotal_posts, by_payee_posts, day_of_week_posts and collapse_posts (--collapse, --depth) emit groups whose values are the exact per-commodity sums of their members and preserve the grand total in every commodity; subtotal_posts behind --by-payee / --dow does so while every row it is fed holds a plain amount, and is refuted by a witness once a row holds two commodities (it reads the null post.amount of such a row: F1709). The model is tied to the code by comparing, row for row (transaction identity, date, payee, account, exact amount, exact running total), ledger\'s register with the extracted model on thousands of generated journal/option pairs.',
+    level_text='Theorems in coq/Properties/Properties_C17.v: any two results meeting the specification of a stable sort are equal and the model\'s insertion sort meets it (so the model predicts std::stable_sort without trusting its algorithm); the model of sort_value_is_less_than is a strict weak order on dates, strings, amounts and compound keys with inverted components whenever no amount lacks a commodity or at most one commodity occurs (and is refuted by a cyclic witness otherwise); --sort yields a permutation with unchanged amounts; the model of truncate_xacts keeps exactly the first / last N transactions of the stream for every integer N (0, beyond the count, negative as coded); the models of subtotal_posts, by_payee_posts, day_of_week_posts and collapse_posts (--collapse, --depth) emit groups whose values are the exact per-commodity sums of their members and preserve the grand total in every commodity; subtotal_posts behind --by-payee / --dow (--by-payee --subtotal, --dow --subtotal) is the same handler on the rows of the first one, multi-commodity rows counted with their whole value, so the grand total is again that of the plain register (by_payee_subtotal_total, dow_subtotal_total; /repo 790ae5e repaired F1709, 58fd328 F25). The model is tied to the code by comparing, row for row (transaction identity, date, payee, account, exact amount, exact running total), ledger\'s register with the extracted model on thousands of generated journal/option pairs.',
     level_note='Trusted: Coq kernel; extraction + OCaml driver and the python harness for the correspondence; amount arithmetic is the C03 model (GMP as Q). std::stable_sort is modelled by its specification; the iteration order of collapse_posts\' totals map (keyed by account address) is unspecified, rows of one --depth group are compared as a set. Display hiding of zero rows is avoided by always passing --empty.',
     design_ref='DESIGN.md section 7 C17',
     assumptions=['commodities are unannotated symbols (no lot prices/dates), no posting-level dates, no automated or periodic transactions',
@@ -832,12 +832,7 @@ def run(ctx, n_override=None, oracle_only=False):
         cmds = ["reg --format '%s' --empty %s" % (FMT, ' '.join(o.args())) for o in uniq]
         blocks = lib.run_repl(path, cmds)
         outs = {}
-        for o, b, c in zip(uniq, blocks, cmds):
-            if o.grp == 'dow+sub':
-                # a process of its own: whether a weekday's row is POST_VIRTUAL depends on the account flags
-                # (ACCOUNT_EXT_HAS_NON_VIRTUALS) set so far, and a REPL command that ended in an error
-                # leaves them set for the next one
-                b = lib.run_repl(path, [c])[0]
+        for o, b in zip(uniq, blocks):
             outs[o.text()] = parse_block(b)
         psx = posts_sx(xs)
         plain = outs.get(Opt().text())
